@@ -110,6 +110,13 @@ func buildASTWithTypeDict(stmt *Statement, types *typeDictionary) (Node, error) 
 	return v.Interface().(Node), nil
 }
 
+// isPrefixedKeyword reports whether kw has the form prefix:name, the form of
+// the keyword of an extension: exactly one colon with text on both sides.
+func isPrefixedKeyword(kw string) bool {
+	parts := strings.Split(kw, ":")
+	return len(parts) == 2 && parts[0] != "" && parts[1] != ""
+}
+
 // build builds and returns an AST from the statement stmt and with parent node
 // parent. It also takes as input a type dictionary types into which any
 // encountered typedefs within the statement are cached. The type of value
@@ -187,7 +194,7 @@ func build(stmt *Statement, parent reflect.Value, types *typeDictionary) (v refl
 			if err := fn(ss, v, parent, types); err != nil {
 				return nilValue, err
 			}
-		case len(strings.Split(ss.Keyword, ":")) == 2:
+		case isPrefixedKeyword(ss.Keyword):
 			// Keyword is not known but it has a prefix so it might
 			// be an extension.
 			if y.addext == nil {
